@@ -201,6 +201,9 @@ func (e *balEngine) run() {
 	e.users = append(e.users, balActor{name: "holder", addr: e.holder.BytesBE()})
 	ek := DetKey("bal/user/empty")
 	e.users = append(e.users, balActor{name: "empty", addr: ek.GetScriptHash().BytesBE(), key: ek})
+	// the token contract's own address is an account like any other: it can be
+	// paid, and nobody holds its witness
+	e.users = append(e.users, balActor{name: "balance-itself", addr: e.bal.BytesBE()})
 	e.stranger = DetKey("bal/stranger")
 	e.r.Tracef("world n=%d alphabet=%d-of-%d committee=%d-of-%d allowNeg=%v allowBad=%v", n, n*2/3+1, n, n/2+1, n, e.allowNeg, e.allowBad)
 	e.r.Sweep = func() []string {
